@@ -48,6 +48,8 @@ def le(x, n):
 def item_bytes(kind, v):
     if kind == 1:
         return list(struct.pack('<d', float(v)))
+    if kind == 3:
+        return le(-v, 8)                 # quantiles_sketch<int64_t, DirCmp{desc}>: item v is stored as -v
     return le(v, 8)
 
 def bitlen(z):
@@ -107,7 +109,7 @@ def gen_c09(rng, tier):
     thorough = tier != 'quick'
     cases = []
     for ci in range(70 if not thorough else 700):
-        kind = rng.choice([0, 0, 1])
+        kind = rng.choice([0, 0, 1, 3])
         b = Builder(rng, kind)
         b.ops.append([99, rng.randrange(1 << 30)])
         tags = set(); pairs = []
@@ -155,6 +157,7 @@ def gen_c09(rng, tier):
         if b.sims[0].bp: tags.add('estimation')
         if ar: tags.add('continuation-compacts')
         if kind == 1: tags.add('double')
+        if kind == 3: tags.add('stateful-comparator')
         cases.append(dict(id='qc%d' % ci, ops=ops, tags=sorted(tags), pairs=pairs))
     return cases
 
@@ -221,7 +224,7 @@ def gen_c10(rng, tier):
         ops = [[22, 0, 1] + img, [5, 0], [20, 0], [10, 0], [6, 0, n // 2], [7, 0, 1, 1]]
         cases.append(dict(id='qship_n%d_v%s' % (n, v.replace('.', '_')), ops=ops, tags=['shipped', 'levels>=1'] if n > 256 else ['shipped'], shipped=(n, v), image=img))
     for ci in range(60 if not thorough else 600):
-        kind = rng.choice([0, 0, 1]); k = rng.choice(KS)
+        kind = rng.choice([0, 0, 1, 3]); k = rng.choice(KS)
         form = rng.choice(FORMS)
         z = rng.random()
         if z < 0.12:
@@ -354,7 +357,7 @@ def gen_c11(rng, tier):
         if n == 50:
             corrupt_case('qx_ship_n%d_v%s' % (n, v.replace('.', '_')), 1, img, list(range(16)) + ([32, 33, 39] if v == '0.3.0' else []), ['corrupt', 'shipped'])
     for ci in range(14 if not thorough else 120):
-        kind = rng.choice([0, 0, 1]); k = rng.choice([2, 2, 4, 8])
+        kind = rng.choice([0, 0, 1, 3]); k = rng.choice([2, 2, 4, 8])
         form = rng.choice(FORMS)
         if rng.random() < 0.1:
             img = py_enc(kind, k, 0, 0, 0, [], [], sv=form['sv'], compact=form['compact'], empty=True)
